@@ -412,6 +412,88 @@ rule("D1.enumerate",
      "for ( $i:id , $x:id ) in $(e) . iter ( ) . enumerate ( ) {",
      "for $i in 0 .. $(e) . len ( ) { let $x = & $(e) [ $i ] ;",
      "for (i, x) in E.iter().enumerate() -> indexed loop (definition of enumerate on slices)")
+def for_vec_while(toks):
+    """`for X in shim_f(ARGS) {`  ->  `let __v_X = shim_f(ARGS); let mut __i_X: usize = 0; while __i_X < __v_X.len() { let X = __v_X[__i_X]; __i_X += 1;`
+    (loops whose body uses `continue`, which Verus for-loops do not support; the index is advanced before the body so
+    `continue`/`break` keep their meaning; the shim returns the iterator's items collected into a Vec)"""
+    out = list(toks)
+    count = 0
+    i = 0
+    while i < len(out):
+        t = out[i]
+        if (t.kind == "id" and t.text == "for" and i + 4 < len(out) and out[i + 1].kind == "id" and out[i + 2].text == "in"
+                and out[i + 3].kind == "id" and out[i + 3].text.startswith("shim_") and out[i + 4].text == "("):
+            x = out[i + 1].text
+            close = match_close(out, i + 4)
+            if close + 1 < len(out) and out[close + 1].text == "{":
+                call = out[i + 3:close + 1]
+                line = t.line
+                v, k = "__v_" + x, "__i_" + x
+                new = T("let %s =" % v, line) + clone(call, line) + T("; let mut %s : usize = 0 ; while %s < %s . len ( ) { let %s = %s [ %s ] ; %s += 1 ;" % (k, k, v, x, v, k, k), line)
+                out[i:close + 2] = new
+                count += 1
+                i += len(new)
+                continue
+        i += 1
+    return out, count
+
+
+def generic_path_param(toks):
+    """fn f<P: AsRef<Path>>(.. path: P ..) { .. path.as_ref() .. }  ->  the instance at P = &Path:
+    fn f(.. path: &Path ..) { .. path .. }   (as_ref on &Path is the identity)"""
+    out = list(toks)
+    count = 0
+    i = 0
+    while i < len(out):
+        tx = [t.text for t in out[i:i + 9]]
+        if tx[:9] == ["<", "P", ":", "AsRef", "<", "Path", ">", ">", "("] or tx[:8] == ["<", "P", ":", "AsRef", "<", "Path", ">>", "("]:
+            n = 8 if tx[:9] == ["<", "P", ":", "AsRef", "<", "Path", ">", ">", "("] else 7
+            del out[i:i + n]
+            count += 1
+            continue
+        if tx[:3] == [":", "P", ","] or tx[:3] == [":", "P", ")"]:
+            out[i + 1:i + 2] = T("& Path", out[i].line)
+            count += 1
+        if tx[:5] == ["path", ".", "as_ref", "(", ")"]:
+            del out[i + 1:i + 5]
+            count += 1
+        i += 1
+    return out, count
+
+
+def bytestr_to_array(toks):
+    """b"literal"  ->  &[0x..u8, ...]   (the same &[u8; N] value; Verus knows the contents of an array literal but not of a byte-string literal)"""
+    out = []
+    count = 0
+    for t in toks:
+        if t.kind == "str" and t.text.startswith('b"'):
+            body = t.text[2:-1]
+            bs = []
+            i = 0
+            while i < len(body):
+                c = body[i]
+                if c == "\\":
+                    n = body[i + 1]
+                    if n == "x":
+                        bs.append(int(body[i + 2:i + 4], 16)); i += 4; continue
+                    bs.append({"n": 10, "r": 13, "t": 9, "0": 0, "\\": 92, '"': 34, "'": 39}[n]); i += 2; continue
+                bs.extend(c.encode("utf-8")); i += 1
+            new = T("& [", t.line)
+            for k, b in enumerate(bs):
+                if k:
+                    new += T(",", t.line)
+                new.append(Tok("num", "0x%02xu8" % b, t.line, True))
+            new += T("]", t.line)
+            out.extend(new)
+            count += 1
+        else:
+            out.append(t)
+    return out, count
+
+
+pyrule("D16.bytestr_to_array", bytestr_to_array, bytestr_to_array.__doc__)
+pyrule("D1.for_vec_while", for_vec_while, for_vec_while.__doc__)
+pyrule("D9.generic_path_param", generic_path_param, generic_path_param.__doc__)
 pyrule("D12.drop_thiserror_attrs", drop_attrs({"error", "from", "source"}),
        "thiserror helper attributes inside an error enum (#[error(..)], #[from]) are dropped; the From impls are written out")
 pyrule("D12.drop_serde_attrs", drop_attrs({"serde", "serde_as", "cfg_attr"}),
@@ -641,6 +723,56 @@ rule("D15.sorted_entries",
      "let mut bmap = BTreeMap :: new ( ) ; for ( key , val ) in & self . entries { bmap . insert ( key , val ) ; } for ( key , val ) in bmap {",
      "for ( key , val ) in shim_sorted_entries ( & self . entries ) {",
      "copying a HashMap's (&K,&V) pairs into a BTreeMap and iterating it by value: all pairs, each once, in increasing key order")
+
+rule("D6.split_nl_bytes",
+     "$recv . split ( | c | * c == b'\\n' )",
+     "shim_split_nl ( $recv )",
+     "<[u8]>::split(|c| *c == b'\\n') collected into a Vec<&[u8]>")
+
+rule("D6.split_ascii_ws",
+     "$recv . split ( | c | c . is_ascii ( ) && ( * c as char ) . is_whitespace ( ) )",
+     "shim_split_ascii_ws ( $recv )",
+     "<[u8]>::split(|c| c is ASCII whitespace) collected into a Vec<&[u8]>")
+
+rule("D6.slice_starts_with_lit",
+     "$recv . starts_with ( $l:str )",
+     "shim_slice_starts_with ( $recv , $l )",
+     "<[u8]>::starts_with(b\"literal\")")
+
+rule("D6.osstring_from_vec_line",
+     "OsString :: from_vec ( ( * line ) . to_vec ( ) )",
+     "shim_osstring_from_slice ( line )",
+     "OsString::from_vec(slice.to_vec())")
+
+rule("D6.string_from_utf8_slice",
+     "String :: from_utf8 ( s . to_vec ( ) )",
+     "shim_string_from_utf8_slice ( s )",
+     "String::from_utf8(slice.to_vec())")
+
+rule("D6.path_push_osstr",
+     "path . push ( shim_osstr_from_bytes ( $(e) ) )",
+     "shim_pathbuf_push_bytes ( & mut path , $(e) )",
+     "PathBuf::push(OsStr::from_bytes(bytes))")
+
+rule("D6.slice_ne_lit",
+     "s != $l:str",
+     "shim_slice_ne ( s , $l )",
+     "<[u8]>::ne(b\"literal\")")
+
+rule("D6.u64_from_str",
+     "u64 :: from_str ( & value )",
+     "shim_parse_u64 ( value . as_str ( ) )",
+     "u64::from_str(&String)")
+
+rule("D6.string_eq_lit",
+     "action == $l:str",
+     "shim_string_eq_str ( & action , $l )",
+     "String == &str literal")
+
+rule("D6.str_to_lowercase",
+     "$recv . to_lowercase ( )",
+     "shim_to_lowercase ( $recv )",
+     "str::to_lowercase() (Unicode)")
 
 rule("D6.take_digits",
      "$recv . chars ( ) . take_while ( char :: is_ascii_digit ) . collect ( )",
